@@ -65,6 +65,22 @@ struct cat_command *args_world(int nv, bool with_handler, bool need_all, bool sh
 void args_run_and_judge(struct cat_command *c, const uint8_t *args, size_t n, const char *focus_prop)
 {
         int nv = (int)c->var_num;
+        uint8_t *a2 = NULL;
+        if (target_implicit && chance(15)) {      /* "AT+S=<arguments>" to an implicit-write command: the '=' is the first argument byte */
+                a2 = xalloc(n + 1); a2[0] = '='; memcpy(a2 + 1, args, n); args = a2; n++;
+                CNT("implicit_write_lines_with_an_equals_sign_in_front_of_the_arguments");
+        }
+        {       /* what a numeric variable held before is not independent of what is written now: the same value again, or a value that agrees with the new one
+                 * in its low half (a counter that wrapped, a register written back with one field changed) */
+                struct ref_wres pre; ref_parse_args(c, args, n, &pre);
+                for (int j = 0; j < nv; j++) {
+                        const struct cat_variable *v = &c->var[j];
+                        if (v->type > CAT_VAR_NUM_HEX || pre.v[j].status != RV_ACCEPTED || pre.v[j].nval != v->data_size || !chance(15)) continue;
+                        memcpy(v->data, pre.v[j].val, v->data_size);
+                        if (v->data_size >= 2 && chance(70)) { uint8_t *d = v->data; for (size_t b = v->data_size / 2; b < v->data_size; b++) d[b] = (uint8_t)rnd(); CNT("numeric_variables_that_held_a_value_with_the_same_low_half"); }
+                        else CNT("numeric_variables_that_already_held_the_written_value");
+                }
+        }
         for (int j = 0; j < nv; j++) memcpy(before[j], c->var[j].data, c->var[j].data_size);
         if (chance(10)) {
                 /* the application had (some of) the variables locked before: a request was served under other access flags, then the flags were set to what
@@ -79,11 +95,6 @@ void args_run_and_judge(struct cat_command *c, const uint8_t *args, size_t n, co
                 if (run_quiet(quiet_bound() + 4 * (long)n) < 0) { inconclusive("no quiescence (C15's subject)"); return; }
                 for (int j = 0; j < nv; j++) { vv[j].access = keep[j]; memcpy(vv[j].data, before[j], vv[j].data_size); }
                 CNT("lines_after_a_request_served_under_other_access_flags");
-        }
-        uint8_t *a2 = NULL;
-        if (target_implicit && chance(15)) {      /* "AT+S=<arguments>" to an implicit-write command: the '=' is the first argument byte */
-                a2 = xalloc(n + 1); a2[0] = '='; memcpy(a2 + 1, args, n); args = a2; n++;
-                CNT("implicit_write_lines_with_an_equals_sign_in_front_of_the_arguments");
         }
         nvw = 0; wh_calls = 0; wh_argsnum = 0;
         in_reset(); in_puts(chance(50) ? "AT+S" : "at+s"); if (!target_implicit) in_putc('='); else CNT("lines_to_an_implicit_write_command"); in_put(args, n); in_putc('\n');
